@@ -343,10 +343,14 @@ func init() {
 				s.nfresh++
 				j := fmt.Sprintf("j!%d", s.nfresh)
 				// every new element is an old element, and every old element is still present (a permutation)
-				ax1 := fmt.Sprintf("(forall ((%s Int)) (! (=> (and (<= 0 %s) (< %s %s)) (and (<= 0 (%s %s)) (< (%s %s) %s) (= (select %s (+ %s %s)) (select %s (+ %s (%s %s)))))) :pattern ((select %s (+ %s %s)))))",
-					j, j, j, ln.S, pf, j, pf, j, ln.S, na.S, off.S, j, oldArr.S, off.S, pf, j, na.S, off.S, j)
-				ax2 := fmt.Sprintf("(forall ((%s Int)) (! (=> (and (<= 0 %s) (< %s %s)) (and (<= 0 (%s %s)) (< (%s %s) %s) (= (select %s (+ %s (%s %s))) (select %s (+ %s %s))))) :pattern ((select %s (+ %s %s)))))",
-					j, j, j, ln.S, qf, j, qf, j, ln.S, na.S, off.S, qf, j, oldArr.S, off.S, j, oldArr.S, off.S, j)
+				jT := T{j, SInt}
+				ij := s.sidx(off, jT).S
+				ipj := s.sidx(off, T{fmt.Sprintf("(%s %s)", pf, j), SInt}).S
+				iqj := s.sidx(off, T{fmt.Sprintf("(%s %s)", qf, j), SInt}).S
+				ax1 := fmt.Sprintf("(forall ((%s Int)) (! (=> (and (<= 0 %s) (< %s %s)) (and (<= 0 (%s %s)) (< (%s %s) %s) (= (select %s %s) (select %s %s)))) :pattern ((select %s %s))))",
+					j, j, j, ln.S, pf, j, pf, j, ln.S, na.S, ij, oldArr.S, ipj, na.S, ij)
+				ax2 := fmt.Sprintf("(forall ((%s Int)) (! (=> (and (<= 0 %s) (< %s %s)) (and (<= 0 (%s %s)) (< (%s %s) %s) (= (select %s %s) (select %s %s)))) :pattern ((select %s %s))))",
+					j, j, j, ln.S, qf, j, qf, j, ln.S, na.S, iqj, oldArr.S, ij, oldArr.S, ij)
 				s.assume(T{ax1, SBool})
 				s.assume(T{ax2, SBool})
 				st.Heap[names[i]] = s.define("H", Store(h, org.val.L[0], na))
@@ -495,7 +499,8 @@ func (s *Session) lockOp(fr *Frame, name string, args []Val, st *State) Val {
 // re-slice x[:n] of an existing slice must cap the capacity (x[:n:n]); otherwise the real append may write into
 // x's backing array and the obligation `safety:alias` fails.
 func (s *Session) aliasScreen(fr *Frame, cc *ssa.CallCommon, st *State) {
-	if !fr.top || fr.contract == nil || fr.contract.Options["aliasscreen"] == "" {
+	// the option of the function under proof covers the helpers inlined into it
+	if s.topContract == nil || s.topContract.Options["aliasscreen"] == "" {
 		return
 	}
 	sl, ok := cc.Args[0].(*ssa.Slice)
